@@ -252,9 +252,11 @@ def run(ctx: Ctx, env):
                         ctx.fail("O5.while-descends", f"{ci.name}.{name}", f"the worklist loop pushes `{not_descending[n.lineno]}`, which is not a part of the "
                                  "item it just popped: nothing shrinks, the loop need not terminate", gm.loc(n), "a/b/c eq 1")
                         continue
-                    ctx.check(n.lineno in verified, "O5.while-descends", f"{ci.name}.{name}",
-                              "`while` loop in a parser/lexer callback that was not shown to terminate by structural descent "
-                              "(worklist form: pop one item, push only parts of it)", gm.loc(n))
+                    if n.lineno not in verified:
+                        # no termination argument is available for this loop: that is no verdict either way
+                        raise AnalysisError(f"`while` loop in {ci.name}.{name}: termination can only be shown for worklist loops "
+                                            "(pop one item, push only parts of it)", gm.loc(n))
+                    ctx.ok("O5.while-descends", f"{ci.name}.{name}", "worklist loop: every iteration pops one item and pushes only parts of it")
     rec: Dict[str, str] = {}
     for p in g.productions:
         for x in kf.prod_paths.get(p.index, []):
